@@ -169,4 +169,22 @@ def extended_search(ctx):
     pipeprop.run(ctx, "C04", FOCUS, oracle, 2500, 2500, ctx.rule, nontrivial)
 
 
-replay = pipeprop.generic_replay("C04", oracle)
+_generic = pipeprop.generic_replay("C04", oracle)
+
+
+def replay(ctx, rp):
+    inp = (rp.get("failure") or {}).get("input") or {}
+    if inp.get("kind") != "real-stdout":
+        return _generic(ctx, rp)
+    import json
+    from props import c06
+    st, out, files = c06.run_with_stdout(inp["argv"], inp["inputs"], inp["cores"])
+    rep = json.loads(files.get("report.json", b"{}") or b"{}")
+    got = c06._fq(out)
+    want = (rep.get("read_counts", {}).get("output"), rep.get("basepair_counts", {}).get("output"))
+    have = (len(got), sum(len(x[1]) for x in got))
+    print("status:", st, "| report (reads, bp written):", want, "| standard output holds:", have)
+    if st != 0 or want != have:
+        ctx.failures.append(Failure("C04/written-differs-from-stdout", "reads / base pairs written according to the report are not what standard output holds",
+                                    inp, dict(report=want), dict(stdout=have)))
+    return 1 if ctx.failures else 0
